@@ -87,7 +87,20 @@ inline int fI0() { ++g_calls; return 3; }
 inline int fI1(int) { ++g_calls; return 3; }
 inline int fI2(int, int) { ++g_calls; return 3; }
 
-// functor objects accepting anything (never touch their arguments)
+// targets that take a functor BY VALUE as a sigc::slot parameter (like `run_then(int, continuation)`): a functor bound
+// with sigc::bind() is converted to the slot parameter on every call.  They never invoke what they are passed.
+#define VS_SLOT_TARGETS(Q, M, SIG)                                          \
+  inline void gV_##Q##M(sigc::slot<SIG>) { ++g_calls; }                     \
+  inline int gI_##Q##M(sigc::slot<SIG>) { ++g_calls; return 3; }            \
+  inline void hV_##Q##M(int, sigc::slot<SIG>) { ++g_calls; }                \
+  inline int hI_##Q##M(int, sigc::slot<SIG>) { ++g_calls; return 3; }
+VS_SLOT_TARGETS(V, 0, void())
+VS_SLOT_TARGETS(V, 1, void(int))
+VS_SLOT_TARGETS(I, 0, int())
+VS_SLOT_TARGETS(I, 1, int(int))
+#undef VS_SLOT_TARGETS
+
+// functor objects accepting anything — ints, object references, functors bound by value — (never touch their arguments)
 struct LeafV
 {
   template<typename... A>
